@@ -424,6 +424,12 @@ func runSweep(repo, id string, base *Result) *SweepEvidence {
 		return ev
 	}
 	p := base.prog
+	if len(p.lineMaps) > 0 || p.normalised {
+		// statements are located in the files as written, not in the normalised program
+		if raw, err := load(repo, p.Config, nil, 0, nil); err == nil {
+			p = raw
+		}
+	}
 	cands := sweepCandidates(p, base.FuncsAnalysed)
 	ev.Candidates = len(cands)
 	// bound the cost: at most sweepCap removals per run, chosen by VERIF_SEED
@@ -518,6 +524,9 @@ func sweepAll(repo string) {
 	want := map[string]bool{}
 	for _, f := range base.Funcs {
 		want[f.String()] = true
+	}
+	if raw, err := load(repo, quickConfigs[0], nil, 0, nil); err == nil {
+		base = raw
 	}
 	cands := sweepCandidates(base, want)
 	var ids []string
